@@ -23,9 +23,10 @@ MIN = {"quick": {"rows==stream": 1500, "read:has_interaction(u,v,t)": 30000, "re
        "thorough": {"rows==stream": 30000, "read:has_interaction(u,v,t)": 600000, "read:stream==written": 30000,
                     "log:has_interaction(u,v,t)": 600000}}
 REQUIRED_CELLS = {t: tuple("target:" + x for x in iohelp.TARGETS) + tuple("delim:%r" % d for d in iohelp.DELIMS) +
-                  tuple("enc:" + e for e in iohelp.ENCODINGS) + ("ids:int", "ids:str", "ids:nonascii",
+                  tuple("enc:" + e for e in iohelp.ENCODINGS) + ("ids:int", "ids:str", "ids:nonascii", "ids:numstr",
                                                                "class:DynGraph", "class:DynDiGraph",
-                                                               "log:unclosed-single", "log:repeated-plus")
+                                                               "log:unclosed-single", "log:repeated-plus",
+                                                               "src:big(>256 events)")
                   for t in ("quick", "thorough")}
 
 
@@ -56,8 +57,8 @@ def c09_presence(H, h, ts):
     return True
 
 
-def roundtrip(ctx, dn, directed, idkind, delim, enc, target):
-    r = c09.build(ctx, dn, directed, idkind)
+def roundtrip(ctx, dn, directed, idkind, delim, enc, target, big=False):
+    r = c09.build(ctx, dn, directed, idkind, big)
     if not r:
         ctx.skip("graph not built")
         return
@@ -90,6 +91,8 @@ def roundtrip(ctx, dn, directed, idkind, delim, enc, target):
         rows, trailing = iohelp.rows_of(tgt.data(), enc, delim)
         ctx.expect("rows:newline-terminated", trailing, "", cfg)
         ctx.expect("rows==stream", rows, [tuple(str(x) for x in ev) for ev in stream], cfg)
+        if big:
+            ctx.cell("src:big(>256 events)" if len(stream) > 256 else "src:big(too small)")
         conv = int if idkind == "int" else str
         rk = dict(directed=directed, nodetype=conv, timestamptype=int, encoding=enc)
         if delim is not None:
@@ -116,7 +119,11 @@ def roundtrip(ctx, dn, directed, idkind, delim, enc, target):
                             dict(cfg, note="presence read back equals the deviant model exactly"))
                 h = dev
         guarded(ctx, "read:audit", audit.audit_all, ctx, dn, H, h, "read:", ("C01", "C03", "C04"))
-        ctx.expect("read:stream==written", sorted(H.stream_interactions(), key=repr), sorted(stream, key=repr), cfg)
+        def norm(evs):
+            # same events irrespective of the integer type of the stamps (numpy / python) and of the order inside
+            # an instant
+            return sorted(((u, v, op, int(t)) for (u, v, op, t) in evs), key=lambda x: (x[3], repr(x[:3])))
+        ctx.expect("read:stream==written", norm(H.stream_interactions()), norm(stream), cfg)
         ctx.nontrivial(m.state_key(), repr(sorted(cfg.items(), key=str)))
     finally:
         shutil.rmtree(d, ignore_errors=True)
@@ -199,10 +206,11 @@ def log_case(ctx, dn):
 
 def run(ctx, dn):
     rng = ctx.rng
-    grid = [(d, i, dl, e, t) for d in (False, True) for i in ("int", "str", "nonascii")
+    grid = [(d, i, dl, e, t) for d in (False, True) for i in ("int", "numstr", "str", "nonascii")
             for dl in iohelp.DELIMS for e in iohelp.ENCODINGS for t in iohelp.TARGETS]
     rng.shuffle(grid)
     n = 0
+    roundtrip(ctx, dn, rng.random() < 0.5, "int", rng.choice(iohelp.DELIMS), "utf-8", rng.choice(iohelp.TARGETS), big=True)
     while ctx.time_left() > 1:
         roundtrip(ctx, dn, *grid[n % len(grid)])
         if n < 2:
